@@ -8,22 +8,9 @@
 (*      [total, allocated]                                                 *)
 (* and is untouched by the pure arithmetic operations.                     *)
 (***************************************************************************)
-EXTENDS Integers, Sequences, FiniteSets, TLC, SequencesExt, FiniteSetsExt
+EXTENDS FimCapacityAlgebra, Sequences, TLC, SequencesExt, FiniteSetsExt
 
-Fields == {"cpu", "core", "ram", "disk", "bw", "burst_size", "unit", "mtu"}
-Zero == [f \in Fields |-> 0]
 Cap(v) == [f \in Fields |-> IF f \in DOMAIN v THEN v[f] ELSE 0]      \* complete a partial record
-
-Add(a, b) == [f \in Fields |-> a[f] + b[f]]
-Sub(a, b) == [f \in Fields |-> a[f] - b[f]]
-\* "a > b" in the code: a is at least b in every field (b fits within a)
-Ge(a, b)  == \A f \in Fields : a[f] >= b[f]
-\* "a < b": a fits within b
-Le(a, b)  == \A f \in Fields : a[f] <= b[f]
-Eq(a, b)  == \A f \in Fields : a[f] = b[f]
-NegFields(a) == {f \in Fields : a[f] < 0}
-Positive(a, fs) == \A f \in fs : a[f] > 0
-NonZero(a) == {f \in Fields : a[f] # 0}
 
 \* ---------------------------------------------------------------- ledger
 EmptyLedger == [total |-> Zero, allocated |-> Zero]
@@ -58,15 +45,6 @@ Apply(S, o) ==
       [] o.op = "Release"   -> LET T == [S EXCEPT !.allocated = Sub(@, Cap(o.a))] IN R(T, "ok", [k |-> "ledger", free |-> Free(T)])
       [] o.op = "CanFit"    -> R(S, "ok", [k |-> "val", v |-> Le(Cap(o.a), Free(S)), a |-> Cap(o.a), b |-> Cap(o.a)])
 
-\* ---------------------------------------------------------------- algebraic laws (checked by TLC on the model, C15)
-Laws(a, b, c) ==
-    /\ Sub(Add(a, b), b) = a
-    /\ Add(a, b) = Add(b, a)
-    /\ Add(Add(a, b), c) = Add(a, Add(b, c))
-    /\ (Le(a, b) <=> NegFields(Sub(b, a)) = {})
-    /\ (Ge(a, b) <=> Le(b, a))
-    /\ Eq(a, a) /\ (Eq(a, b) <=> Eq(b, a)) /\ (Eq(a, b) <=> a = b)
-    /\ Add(Sub(a, b), b) = a                       \* free + allocated = total
-    /\ (Le(a, b) /\ Le(b, c) => Le(a, c))
-LedgerInv(S) == Add(Free(S), S.allocated) = S.total
+\* ---------------------------------------------------------------- laws: FimCapacityAlgebra!Laws, and for the ledger
+LedgerInv(S) == LedgerLaw(S.total, S.allocated)
 =============================================================================
